@@ -251,6 +251,15 @@ func runPoolOnce(r *vcore.Run, tasks []task, n int, defWatchdog time.Duration, d
 						r.Count("pool.worker-ms."+f, int(o.Ms))
 					}
 					t.done(o)
+					if (!o.Sat || strings.HasPrefix(o.Vals["note"], "first execution")) && (strings.HasPrefix(t.fam, "pair/") || t.fam == "ecpair") {
+						// a failed execution leaves package-level circuit state
+						// behind (sw_bw6761.thirdRootOne caches its evaluation at the
+						// previous run's challenge): the next pairing case in this
+						// process would be rejected for that reason alone
+						w.kill()
+						w = nil
+						cnt(r, "pool.worker-retired-after-unsatisfiable-pairing-case")
+					}
 				case <-time.After(wd):
 					w.kill()
 					w = nil
